@@ -93,7 +93,7 @@ def harness(args, timeout=3600, binpath=None, env=None):
                 pass
     if rc == 124:
         raise ToolError("harness timed out: " + " ".join(map(str, args)))
-    if rc < 0 or rc in (132, 134, 135, 136, 139):
+    if rc in (-4, -6, -7, -8, -11, 132, 134, 135, 136, 139):
         # killed by a signal (SIGSEGV, SIGILL, SIGBUS, SIGFPE, SIGABRT): the harness is safe Rust and catches panics, so
         # the crash happened inside the library (undefined behaviour in an unsafe block, an abort): that is data, not a
         # tool failure
